@@ -9,14 +9,19 @@ ALL = ["C%02d" % i for i in range(1, 21)]
 CHECKS = {
  "C01": ("model_checking",
          "bounded-exhaustive enumeration of write-fragmentation scripts (short accept / would-block / error at every offset) over the real output buffer and write_to_stream",
-         "Programs of up to 3 real frames (8 B to 9 KB) queued before chosen write calls, written through the real write_to_stream into a scripted transport under every placement of up to 2 (thorough: 3) cuts; after every call the transport content must be a prefix of header+frames, accepted+pending must equal queued, and a call may return with data pending only after a would-block.",
-         "This part covers the single-threaded write path only; interleaving of several handles/threads and the re-arming of socket interest are decided by the simx scenarios when present.",
-         "DESIGN.md §6 C01", "seqx"),
+         "Two parts. (1) seqx: programs of up to 3 real frames (8 B to 9 KB) queued before chosen write calls, written through the real write_to_stream into a scripted transport under every placement of up to 2 (thorough: 3) cuts (short accept / would-block / error). (2) simx: a live connection with two writer threads and the connection thread over a transport that answers every write call short (then stalls until granted) or starts stalled, every decision sequence with at most 2 (thorough 3) deviations: the wire must be header + whole frames, each channel's frames exactly its program in order, nothing lost or duplicated, no stalled write (deadlock check).",
+         "Bounds: 3 threads, 2 writer channels, programs of 5 operations; scheduling granularity is channel/poll operations; the transport is a model of an edge-triggered non-blocking socket (DESIGN.md 5.2).",
+         "DESIGN.md §6 C01", "seqx+simx"),
  "C02": ("exploration",
          "complete cartesian enumeration of publishes through the real Channel/ChannelHandle with the hand-over queue tapped, frames split by an independent envelope parser",
          "frame_max x 12 (thorough 18) body lengths around multiples of the payload limit x mandatory x immediate x name classes, all 2^14 property subsets, boundary property values and pairs of consecutive publishes; checks method fields, header size and properties, body concatenation, per-frame size limit, absence of empty/extra body frames and contiguity.",
          "Observed at the queue to the I/O thread, i.e. before the write path (C01 covers that).",
          "DESIGN.md §6 C02", "seqx"),
+ "C04": ("model_checking",
+         "stateless deviation-bounded exhaustive exploration of concurrent RPC on the real threads; replies carry values derived from (channel, request number) and are released per channel in every order within the bound",
+         "2-3 channels on 2-3 threads, programs of 2-3 calls (declare, passive, auto-named, purge, delete, qos, recover, bind, confirm-select, get, consume+cancel, nowait variants, publishes in between); the scripted broker holds replies per channel and releases them by environment actions, so reply order across channels is part of the explored space; every decision sequence with at most 2 (thorough 3) deviations. Oracle: each call returns exactly the value generated for its own (channel, request number); nowait calls return with all replies withheld (a waiting nowait call would deadlock).",
+         "Bounds: 3 channels / threads, 7 program sets; scheduling granularity is channel/poll operations.",
+         "DESIGN.md §6 C04", "simx"),
  "C05": ("fault_enumeration",
          "exhaustive fault enumeration over a live connection under a controlled scheduler: every crash point x fault kind x every schedule within a deviation bound, on the real I/O thread and client threads",
          "A full session (handshake, two channels, consumer, blocked call, publishes, close) runs on the real threads gated at every channel/poll operation; EOF and read error are injected at every 3rd (thorough: every) byte offset of the server->client stream, a write error at every client write call, a malformed frame at every server frame position, plus total silence under virtual time, server Connection.Close and a client-side protocol exception; each fault is combined with every schedule reachable with 1 (non-sweep faults 2; thorough 2/3) deviations from the default schedule. Oracle: no deadlock, no panic, every call after the failure returns Err, the consumer queue terminates, Connection::close returns the mapped root cause, I/O thread gone and transport dropped.",
@@ -32,6 +37,11 @@ CHECKS = {
          "Client- and server-initiated close racing with a consumer, a blocked call and publishes on two other threads; CloseOk alone or followed by EOF (in the same read or later), transport stalled or not, delivery cuts; every decision sequence with at most 2 (thorough 3) deviations from the default schedule is executed. Oracle: last frame written (Close(200,goodbye) / CloseOk), close() result, first error on each channel, later calls fail, exactly one terminal consumer message, thread and transport released.",
          "Scheduling granularity is channel/poll operations; session shape fixed (2 channels, 3 client threads); reply texts limited to the listed codes.",
          "DESIGN.md §6 C08", "simx"),
+ "C09": ("model_checking",
+         "stateless deviation-bounded exhaustive exploration of a server-initiated channel close on the real threads",
+         "Three channels on three threads; the server closes channel n while it is idle, has a call in flight, has content half received, or has two consumers attached (the close is an environment action offered from the moment that state exists); the other channels keep making value-carrying calls; afterwards id n is re-opened. Every decision sequence with at most 2 (thorough 3) deviations. Oracle: ServerClosedChannel(n, code, text) on the in-flight/next call, later calls fail, consumers get exactly that terminal message, Channel.CloseOk(n) on the wire, other channels' replies intact, connection closes Ok, id reusable.",
+         "Bounds: 3 channels; quick tier covers 6 (n, state) pairs, thorough all 12.",
+         "DESIGN.md §6 C09", "simx"),
  "C10": ("model_checking",
          "explicit-state breadth-first search of the complete reachable state graph of the real ChannelSlots (via probe) with a reference set, plus counter-boundary sequences in child processes",
          "Complete reachable state graph for channel_max 1..3 (thorough: 4) under open(Some(i)) for every i in 0..=max+1, open(None), close, close of a non-open id, failing slot construction and drain; every transition is judged against the statement and the open set compared with a reference set. The u16 boundary (channel_max 65535, counter at 65533..65535, all ids open) is driven by real calls in child processes with a wall limit so that a spinning allocator is a verdict.",
